@@ -252,4 +252,7 @@ def run(prog, rep, tier, snap):
     rep.call(r18_4, prog, rep)
     rep.rule("R08.2", "calendar tables used by the text forms agree with the calendar (shared with C08)", 15)
     rep.call(c08.r08_2, prog, rep)
+    from ..rules import state
+    rep.rule("R08.8", "the text <-> instant/duration conversions carry no state from one call to the next (shared with C08)", 1)
+    rep.call(state.no_carried_state, prog, rep, "R08.8", "time")
 READY = True
